@@ -370,7 +370,11 @@ def run(repo: Repo, chk: Check, thorough: bool = False) -> None:
         if isinstance(n, ast.If) and _hidden_when(n.test, True):
             stores = [x for st in n.body for x in ast.walk(st) if (isinstance(x, ast.Subscript) and isinstance(x.ctx, ast.Store) and isinstance(x.value, ast.Name) and x.value.id in tbls) or
                       (isinstance(x, ast.Call) and call_name(x) in ('setdefault', 'append') and any(isinstance(y, ast.Name) and y.id in tbls for y in ast.walk(x)))]
-            if stores:
+            # ... or through a local helper that stores its argument in the table
+            helpers_ = {g.name for g in repo.funcs.values() if g.outer is frc and any(isinstance(x, ast.Subscript) and isinstance(x.ctx, ast.Store) and isinstance(x.value, ast.Name) and
+                                                                                      x.value.id in tbls for x in g.walk())}
+            via = [x for st in n.body for x in ast.walk(st) if isinstance(x, ast.Call) and isinstance(x.func, ast.Name) and x.func.id in helpers_]
+            if stores or via:
                 files_hidden = True
     chk.ob('R11.3', 'templatewriter.summary.findRootClasses :: a visible class with a hidden base is filed in the class index', files_hidden,
            'the branch for a hidden base stores the class in the returned table' if files_hidden else
@@ -634,3 +638,47 @@ def run(repo: Repo, chk: Check, thorough: bool = False) -> None:
            'no attribute of an existing node is assigned' if not writes else
            f'`{norm(writes[0])}` stores the id of a generated entry in a node of the docstring: with --sidebar-expand-depth >= 2 the titles of a module or class link to '
            '`#rst-toc-entry-1`, an id that only exists in the sidebar of the parent\'s page', repo.loc(bt.mod, writes[0]) if writes else bt.loc)
+
+    # ------------------------------------------------------------------ R11.3 (additions from the second hunter round)
+    # (a) findRootClasses keeps two kinds of entries in one table: `<written name of an unresolved base> -> [classes]` and `<qualified name of a root
+    # class> -> class`.  When the written name of somebody's unresolved base IS the qualified name of a root class, the later store must not replace
+    # the earlier entry (the list is lost: those classes get no anchor in classIndex.html) - the reverse order is already handled
+    frc2 = repo.func('pydoctor.templatewriter.summary.findRootClasses')
+    scope_fs = [frc2] + [g for g in repo.funcs.values() if g.outer is frc2]
+    tbls2 = {x.id for r_ in frc2.walk() if isinstance(r_, ast.Return) and r_.value is not None for c_ in ast.walk(r_.value)
+             if isinstance(c_, ast.Call) and call_name(c_) == 'items' and isinstance(c_.func, ast.Attribute) for x in [c_.func.value] if isinstance(x, ast.Name)}
+    own = []
+    for g in scope_fs:
+        for n in g.walk():
+            if isinstance(n, ast.Assign) and len(n.targets) == 1 and isinstance(n.targets[0], ast.Subscript) and isinstance(n.targets[0].value, ast.Name) and \
+                    n.targets[0].value.id in tbls2 and isinstance(n.value, ast.Name):
+                key = n.targets[0].slice
+                keyed_by_self = (isinstance(key, ast.Call) and call_name(key) == 'fullName' and norm(key.func.value) == n.value.id) or \
+                    (isinstance(key, ast.Name) and any(isinstance(a, ast.Assign) and any(isinstance(t, ast.Name) and t.id == key.id for t in a.targets) and
+                                                      isinstance(a.value, ast.Call) and call_name(a.value) == 'fullName' and norm(a.value.func.value) == n.value.id for a in g.walk()))
+                if keyed_by_self:
+                    own.append((g, n))
+    if not own:
+        raise AnalysisError('R11.3: findRootClasses no longer files a root class under its own qualified name')
+    for g, n in own:
+        cg_ = CFG(g)
+        tb = n.targets[0].value.id
+        held = {t.id for a in g.walk() if isinstance(a, ast.Assign) and any(isinstance(x, ast.Name) and x.id == tb for x in ast.walk(a.value)) for t in a.targets if isinstance(t, ast.Name)}
+        looked = any(any(isinstance(x, ast.Name) and (x.id == tb or x.id in held) for x in ast.walk(t)) for t, _pol in cg_.dominating_tests(n))
+        chk.ob('R11.3', 'templatewriter.summary.findRootClasses :: filing a root class does not discard the classes already filed under that name', looked,
+               'the existing entry is looked at first' if looked else
+               f'`{norm(n)}` replaces whatever is in the table: when an earlier class has an unresolved base whose written name equals this qualified name, the list holding it '
+               'is overwritten and it disappears from classIndex.html - its "View In Hierarchy" link has no anchor', repo.loc(g.mod, n))
+    # (b) the sidebar lists the sections of the docstring as links to `#<section id>`; those ids are only on the page when the body was rendered from the
+    # parsed docstring.  When rendering fails the body is re-done as plain text (no sections): the contents list must not be shown then
+    ft = repo.func('pydoctor.epydoc2stan.format_toc')
+    rets_toc = [r for r in ft.walk() if isinstance(r, ast.Return) and r.value is not None and isinstance(r.value, ast.Call) and call_name(r.value) == 'safe_to_stan']
+    if not rets_toc:
+        raise AnalysisError('R11.3: format_toc no longer returns the rendered table of contents')
+    for r in rets_toc:
+        tried = [t for t in ft.walk() if isinstance(t, ast.Try) and any(isinstance(c, ast.Call) and call_name(c) == 'to_stan' for st in t.body for c in ast.walk(st)) and
+                 any(any(isinstance(x, ast.Return) for x in h.body) for h in t.handlers) and CFG(ft).before(t, r)]
+        chk.ob('R11.3', 'pydoctor.epydoc2stan.format_toc :: section links are only offered when the body is rendered from the parsed docstring', bool(tried),
+               'the body is test-rendered first; a failure suppresses the contents list' if tried else
+               'the contents list is built from the parsed docstring whatever becomes of the body: a docstring with section titles that falls back to plain text (a no-break '
+               'space, an empty table cell, two blanks in an inline literal) gets sidebar links `#rst-usage` to ids that are not on the page', repo.loc(ft.mod, r))
